@@ -1348,6 +1348,9 @@ class Message(ABC):
                 current[value.key] = value.value
             elif isinstance(current, list) and not isinstance(value, list):
                 current.append(value)
+            elif isinstance(current, list):
+                # A repeated scalar may arrive in several (packed) chunks.
+                current.extend(value)
             else:
                 setattr(self, field_name, value)
 
